@@ -5,6 +5,7 @@ Model: `Frequenz.Model.PowerManager` (event handlers of `PowerManagingActor`, af
 recorded in known_findings.json) over the Matryoshka model; every history of events.
 -/
 import Frequenz.Lemmas.PowerManager
+import Frequenz.Lemmas.PowerManagerTie
 
 open Matryoshka PowerManager BoundsLemmas
 
@@ -207,3 +208,44 @@ def C11_exHist : List Event :=
 example : (run State.init C11_exHist).2 = [none, some 50, some 55, some 40] := by decide +kernel
 example : (run State.init C11_exHist).1.reg.last = some 0 ∧ (run State.init C11_exHist).1.op.last = some 40 := by
   decide +kernel
+
+/-- **The hand-written actor model is the current source text** of `_power_managing_actor.py`.
+`Extracted.PowerManagerActor.*` is machine-translated on every run: `_calculate_shifted_bounds`, `_calculate_target_power`
+(state-passing over the two `Matryoshka` instances in Python's evaluation order: which group is computed first, which
+bounds each call receives, where `get_target_power` is read, the routing by `set_operating_point`, the final None / sum
+logic), `_send_updated_target_power`, the proposals / results / timer branches of `_run` (with its loop-carried flag) and
+the body of `_bounds_tracker`.  For ALL states, proposals, bounds, result kinds and times: (1) `shifted` is the
+translated `_calculate_shifted_bounds`; (2) `calcPower` is the translated `_calculate_target_power`, and a request is
+sent iff it returns a power, with that power; (3) every arm of `PowerManager.step` is the translated handler — where
+Python raises `KeyError` (a partial failure for ids without a bounds cache entry) the translation says `none`;
+(4) the initial flag, the cache entry of a new bounds tracker and `adjust_power=True` are those of the source. -/
+theorem C11_model_is_source :
+    (∀ (sb : SystemBounds) (t : Option Rat), Extracted.PowerManagerActor.shiftedBounds sb t = shifted sb t) ∧
+    (∀ (st : State) (sb : SystemBounds) (p : Option (Proposal × Bool)) (must : Bool),
+      Extracted.PowerManagerActor.calculateTargetPower st.op st.reg sb p must =
+        ((calcPower st sb p must).1.op, (calcPower st sb p must).1.reg, (calcPower st sb p must).2) ∧
+      Extracted.PowerManagerActor.sendUpdatedTargetPower st.op st.reg sb p must =
+        ((calcPower st sb p must).1.op, (calcPower st sb p must).1.reg, (calcPower st sb p must).2) ∧
+      (calcPower st sb p must).1.sb = st.sb ∧ (calcPower st sb p must).1.lastPartial = st.lastPartial) ∧
+    (∀ (st : State) (p : Proposal) (isOp : Bool),
+      Extracted.PowerManagerActor.onProposal st.lastPartial st.op st.reg st.sb p isOp =
+        some (PowerManagerTie.stTuple (PowerManager.step st (.proposal p isOp)).1, (PowerManager.step st (.proposal p isOp)).2)) ∧
+    (∀ (st : State) (sb : SystemBounds),
+      Extracted.PowerManagerActor.onBounds st.lastPartial st.op st.reg st.sb sb =
+        some (PowerManagerTie.stTuple (PowerManager.step st (.bounds sb)).1, (PowerManager.step st (.bounds sb)).2)) ∧
+    (∀ (st : State) (k : ResultKind),
+      Extracted.PowerManagerActor.onResult st.lastPartial st.op st.reg st.sb
+          (decide (k = .partialFailure)) (decide (k = .success)) =
+        if k = .partialFailure ∧ st.lastPartial = false ∧ st.sb = none then none
+        else some (PowerManagerTie.stTuple (PowerManager.step st (.result k)).1, (PowerManager.step st (.result k)).2)) ∧
+    (∀ (st : State) (now : Rat),
+      Extracted.PowerManagerActor.onTimer st.lastPartial st.op st.reg st.sb now =
+        some (PowerManagerTie.stTuple (PowerManager.step st (.drop now)).1, (PowerManager.step st (.drop now)).2)) ∧
+    (Extracted.PowerManagerActor.initialFlag = State.init.lastPartial ∧
+      Extracted.PowerManagerActor.trackerInitBounds = noBounds ∧
+      Extracted.PowerManagerActor.requestAdjustPower = true) :=
+  ⟨PowerManagerTie.shiftedBounds_eq,
+   fun st sb p must => ⟨PowerManagerTie.calculateTargetPower_eq st sb p must,
+     PowerManagerTie.sendUpdatedTargetPower_eq st sb p must, rfl, rfl⟩,
+   PowerManagerTie.onProposal_eq, PowerManagerTie.onBounds_eq, PowerManagerTie.onResult_eq,
+   PowerManagerTie.onTimer_eq, PowerManagerTie.constants_eq⟩
